@@ -109,7 +109,10 @@ def run_shard(spec, tier, seed, budget_s):
             k += 1
             size = rng.choice(['tiny', 'small', 'small', 'medium'] + (['large'] if tier == 'thorough' else []))
             doc = gen.random_doc(rng, size, 'plain')
-            both_origins(sh, doc, f'{seed}-{i}-{k}', 'random', PARTS)
+            suite = 'random'
+            if rng.random() < 0.2 and gen.same_bare_names(doc, rng):
+                suite = 'samebare'      # equal bare table names in different schemas
+            both_origins(sh, doc, f'{seed}-{i}-{k}', suite, PARTS)
     for k2, v in reach.counts.items():
         if k2.startswith('renderer.sql'):
             sh.count('reach.' + k2, v)
@@ -119,7 +122,7 @@ def run_shard(spec, tier, seed, budget_s):
 def conclusive(agg, tier):
     c = agg['counters']
     out = []
-    for k in ('obs.cases.product.sqlcolumn.api', 'obs.cases.product.sqlcolumn.parsed', 'obs.cases.random.api',
+    for k in ('obs.cases.product.sqlcolumn.api', 'obs.cases.product.sqlcolumn.parsed', 'obs.cases.random.api', 'obs.cases.samebare.api',
               'obs.cases.random.parsed', 'class.schema_qualified_table', 'class.composite_pk_clause',
               'class.table_with_index', 'class.table_with_comment_on', 'obs.statements.create_table',
               'obs.statements.create_index', 'obs.statements.comment_on', 'obs.statements.create_type'):
